@@ -834,3 +834,126 @@ def directive_rule(m, rid, tier):
                          % (name, used, [p + 1 for p in pos], why, show("\n".join(out), 14)))
     r.floor = 2
     return r
+
+
+# =====================================================================================================
+NAME_RE = re.compile(r"^(\w+)\s*:\s*(?=(do|if|select|where|forall|associate|block|critical)\b)", re.I)
+
+
+def statements_of(src):
+    """[(label, construct name, text)] of a sample source without continuation lines (comments dropped)"""
+    out = []
+    for line in src.rstrip("\n").split("\n"):
+        code, _ = split_comment(line)
+        t = code.strip()
+        if not t:
+            continue
+        if t.endswith("&"):
+            return None
+        label = None
+        mo = re.match(r"(\d+)\s+", t)
+        if mo:
+            label, t = int(mo.group(1)), t[mo.end():]
+        name = None
+        mo = NAME_RE.match(t)
+        if mo:
+            name, t = mo.group(1), t[mo.end():]
+        out.append((label, name, t))
+    return out
+
+
+def layout_rule(m, rid, tier, form="free"):
+    feats_free = [("continuation at token boundaries", {"split"}), ("continuation with leading '&' and comment lines between", {"split", "lead", "between"}),
+                  ("continuation inside character literals", {"split-literal"}), ("statements joined with ';'", {"semicolon"}),
+                  ("indentation, comment lines, trailing comments", {"indent", "before", "trailing"}),
+                  ("everything at once", {"split", "lead", "between", "trailing", "indent", "before", "semicolon"})]
+    feats_fixed = [("plain columns", set()), ("labels anywhere in columns 1-5, '0' in column 6", {"labels", "zero"}),
+                   ("continuation lines with comment lines between", {"split", "between"}),
+                   ("character literals continued", {"split-literal"}), ("everything at once", {"split", "between", "before", "labels", "zero", "indent", "trailing"})]
+    if form == "free":
+        r = RuleResult(rid, "free-form layout of whole programs, by interpretation of reader and parser together: the statements of the "
+                            "sample programs are laid out anew (continuation at token boundaries and inside literals, leading '&', "
+                            "comment and blank lines, trailing comments, ';', indentation); the tree and the regenerated text are those "
+                            "of the plain layout")
+        table, layout = feats_free, RI.free_layout
+    else:
+        r = RuleResult(rid, "fixed form of whole programs, by interpretation of reader and parser together: the statements of the sample "
+                            "programs are written in fixed source form (labels in columns 1-5, continuation marks in column 6, comment "
+                            "lines C/c/*/!, literals continued over lines); the source is read as fixed form and the tree and the "
+                            "regenerated text are those of the free-form program")
+        table, layout = feats_fixed, RI.fixed_layout
+    run = Run(m, r)
+    names = [n for n in sorted(PS.VALID) if statements_of(PS.VALID[n]) is not None]
+    for name in (names if tier == "thorough" else names[1:3]):
+        stmts = statements_of(PS.VALID[name])
+        plain = "\n".join(RI.head(lb, nm) + tx for lb, nm, tx in stmts) + "\n"
+        base = run.parse("f2003", plain, ignore_comments=True)
+        if base is None:
+            if run.dead:
+                return r
+            continue
+        if base[0] != "tree":
+            continue
+        base_text, base_shape = str(base[1]), shape(base[1])
+        for title, feats in (table if tier == "thorough" else table[-1:] + table[:1]):
+            rng = random.Random("layout|%s|%s|%s" % (form, name, title))
+            lines, _items = layout(stmts, rng, feats)
+            src = "\n".join(lines) + "\n"
+            res = run.parse("f2003", src, ignore_comments=True)
+            if res is None:
+                if run.dead:
+                    return r
+                continue
+            r.instances += 1
+            ok = res[0] == "tree" and str(res[1]) == base_text and shape(res[1]) == base_shape
+            if ok and form == "fixed":
+                fmt = world(m, "f2003").reader.get(world(m, "f2003").rw.ev, "format")
+                ok = bool(fmt.get(world(m, "f2003").rw.ev, "is_fixed"))
+            r.ob(ok, "%s, %s: same tree" % (name, title))
+            if not ok:
+                why = ("is rejected (%s %s)" % (res[1], (res[2] or "")[:70].replace("\n", " / "))) if res[0] != "tree" else \
+                    ("regenerates differently" if str(res[1]) != base_text else ("gives a tree of another shape" if shape(res[1]) != base_shape else "is not read as fixed form"))
+                run.fail("layout|%s|%s" % (form, "rejected" if res[0] != "tree" else "differs"), "program %r in %s form (%s) %s.  Source: %s"
+                         % (name, form, title, why, show(src, 16)))
+    r.floor = 3
+    return r
+
+
+def conditional_rule(m, rid, tier):
+    r = RuleResult(rid, "conditional-compilation lines in whole programs, by interpretation of reader and parser together: three "
+                        "statements of each sample program are put behind the '!$ ' sentinel (continuation lines '!$ &'); with the "
+                        "option enabled the tree and the regenerated text are those of the program without sentinels; with the option "
+                        "off (comments ignored) they are those of the program without these statements")
+    run = Run(m, r)
+    names = [n for n in sorted(PS.VALID) if statements_of(PS.VALID[n]) is not None]
+    for name in (names if tier == "thorough" else names[:2]):
+        stmts = statements_of(PS.VALID[name])
+        # hide simple executable statements only (removing them must leave a valid program)
+        simple = [i for i, (lb, nm, tx) in enumerate(stmts) if lb is None and nm is None and re.match(r"[A-Za-z]\w*(\(.*\))?\s*=[^=]", tx)]
+        if len(simple) < 2:
+            continue
+        rng = random.Random("cond|%s" % name)
+        hidden = set(rng.sample(simple, min(3, len(simple))))
+        plain = "\n".join(RI.head(lb, nm) + tx for lb, nm, tx in stmts) + "\n"
+        without = "\n".join(RI.head(lb, nm) + tx for i, (lb, nm, tx) in enumerate(stmts) if i not in hidden) + "\n"
+        lines, on, off = RI.omp_free_layout(stmts, rng, {"split"}, hidden)
+        src = "\n".join(lines) + "\n"
+        for opt, ref, what in ((True, plain, "enabled"), (False, without, "off")):
+            base = run.parse("f2003", ref, ignore_comments=True)
+            res = run.parse("f2003", src, ignore_comments=True, include_omp_conditional_lines=opt)
+            if base is None or res is None:
+                if run.dead:
+                    return r
+                continue
+            if base[0] != "tree":
+                continue
+            r.instances += 1
+            ok = res[0] == "tree" and str(res[1]) == str(base[1]) and shape(res[1]) == shape(base[1])
+            r.ob(ok, "%s, conditional lines %s" % (name, what))
+            if not ok:
+                why = ("is rejected (%s %s)" % (res[1], (res[2] or "")[:70].replace("\n", " / "))) if res[0] != "tree" else "gives another tree / text"
+                run.fail("conditional|%s|%s" % (what, "rejected" if res[0] != "tree" else "differs"), "program %r with statements %s behind '!$ ', "
+                         "conditional lines %s, %s than the program %s.  Source: %s"
+                         % (name, sorted(hidden), what, why, "without sentinels" if opt else "without these statements", show(src, 16)))
+    r.floor = 2
+    return r
